@@ -21,7 +21,7 @@ import (
 	kit "github.com/liftbridge-io/liftbridge/internal/verifkit"
 )
 
-var c10RevStopClasses = []string{"on-cancel", "on-cancel", "on-cancel", "off-below-start", "off-at-start", "off-above-start", "off-oldest", "latest", "ts-at", "ts-before-all", "ts-after-all"}
+var c10RevStopClasses = []string{"on-cancel", "on-cancel", "on-cancel", "off-below-start", "off-at-start", "off-above-start", "off-oldest", "latest", "ts-at", "ts-before-all", "ts-after-all", "ts-at-equal-run"}
 
 func (st *c10State) resolveRevStop(class string, rng *kit.RNG, sReq int64) (c10Stop, bool) {
 	s := c10Stop{Class: class, Pos: client.StopPosition_STOP_OFFSET}
